@@ -57,22 +57,29 @@ struct ExchangeRate {
 }
 
 fn parse_period(period: &str) -> Result<(i32, u32), FxParseError> {
-    let start = period.split_whitespace().next().unwrap_or(period);
-    let date_str = start.split("to").next().unwrap_or(start).trim();
-    let parsed = NaiveDate::parse_from_str(date_str, "%d/%b/%Y")
-        .map_err(|_| FxParseError::InvalidPeriod(period.to_string()))?;
+    let invalid = || FxParseError::InvalidPeriod(period.to_string());
+    let parse_date = |text: &str| NaiveDate::parse_from_str(text, "%d/%b/%Y");
 
-    // "01/Jan/2024 to 31/Jan/2024": a period that ends in another month than it starts in does
-    // not describe one month's rates.
-    if let Some((_, end)) = period.split_once(" to ") {
-        let end = NaiveDate::parse_from_str(end.trim(), "%d/%b/%Y")
-            .map_err(|_| FxParseError::InvalidPeriod(period.to_string()))?;
-        if (end.year(), end.month()) != (parsed.year(), parsed.month()) {
-            return Err(FxParseError::InvalidPeriod(period.to_string()));
+    // "01/Jan/2024 to 31/Jan/2024" (HMRC's form), "01/Jan/2024to31/Jan/2024", or a single date.
+    // Month names contain no "to", so the first "to" (in any letter case) separates the dates.
+    let lower = period.to_ascii_lowercase();
+    let (start_text, end_text) = match lower.find("to") {
+        Some(at) => (&period[..at], Some(&period[at + 2..])),
+        None => (period, None),
+    };
+
+    let start = parse_date(start_text.trim()).map_err(|_| invalid())?;
+
+    // A period that ends in another month than it starts in, or that carries anything but a
+    // date after the separator, does not describe one month's rates.
+    if let Some(end_text) = end_text {
+        let end = parse_date(end_text.trim()).map_err(|_| invalid())?;
+        if (end.year(), end.month()) != (start.year(), start.month()) {
+            return Err(invalid());
         }
     }
 
-    Ok((parsed.year(), parsed.month()))
+    Ok((start.year(), start.month()))
 }
 
 fn currency_minor_units(currency: Currency) -> u8 {
